@@ -12,6 +12,24 @@ import (
 // defaults (NewOptions literal) and the ORDER OF THE STAGES in flagSet: registrations, getEnv,
 // loadCfg, flag.Parse — with, for each registration, where its default value comes from.
 
+// structNamed finds `type name struct{...}` in a file
+func structNamed(f *ast.File, name string) *ast.StructType {
+	for _, d := range f.Decls {
+		gd, ok := d.(*ast.GenDecl)
+		if !ok || gd.Tok != token.TYPE {
+			continue
+		}
+		for _, s := range gd.Specs {
+			if ts := s.(*ast.TypeSpec); ts.Name.Name == name {
+				if st, ok := ts.Type.(*ast.StructType); ok {
+					return st
+				}
+			}
+		}
+	}
+	return nil
+}
+
 func genOptions() {
 	_, f := parseFile("vflow/options.go")
 	var sb strings.Builder
@@ -21,6 +39,7 @@ func genOptions() {
 	// 1. struct fields
 	type setting struct{ field, tag, kind string }
 	var settings []setting
+	embedded := map[string]bool{}
 	for _, d := range f.Decls {
 		gd, ok := d.(*ast.GenDecl)
 		if !ok || gd.Tok != token.TYPE {
@@ -32,16 +51,29 @@ func genOptions() {
 			if !ok || ts.Name.Name != "Options" {
 				continue
 			}
-			for _, fl := range st.Fields.List {
-				tag := ""
-				if fl.Tag != nil {
-					tag = reflect.StructTag(strings.Trim(fl.Tag.Value, "`")).Get("yaml")
-				}
-				kind := exprString(fl.Type)
-				for _, n := range fl.Names {
-					settings = append(settings, setting{n.Name, tag, kind})
+			var addFields func(st *ast.StructType, depth int)
+			addFields = func(st *ast.StructType, depth int) {
+				for _, fl := range st.Fields.List {
+					tag := ""
+					if fl.Tag != nil {
+						tag = reflect.StructTag(strings.Trim(fl.Tag.Value, "`")).Get("yaml")
+					}
+					kind := exprString(fl.Type)
+					// an embedded struct whose keys stay at the top level of the file (yaml ",inline"): its fields are promoted, so
+					// every opts.X and every key reads as before; they are settings like the others
+					if len(fl.Names) == 0 && strings.Contains(tag, "inline") && depth < 3 {
+						if est := structNamed(f, strings.TrimPrefix(kind, "*")); est != nil {
+							embedded[strings.TrimPrefix(kind, "*")] = true
+							addFields(est, depth+1)
+							continue
+						}
+					}
+					for _, n := range fl.Names {
+						settings = append(settings, setting{n.Name, tag, kind})
+					}
 				}
 			}
+			addFields(st, 0)
 		}
 	}
 	sb.WriteString("(* Options struct: field, yaml tag, Go type *)\nDefinition settings : list (string * string * string) :=\n  [")
@@ -65,6 +97,19 @@ func genOptions() {
 			}
 			for _, e := range cl.Elts {
 				if kv, ok := e.(*ast.KeyValueExpr); ok {
+					if in, ok := kv.Value.(*ast.CompositeLit); ok && embedded[exprString(in.Type)] {
+						// the defaults of an embedded group of settings
+						for _, e2 := range in.Elts {
+							if kv2, ok := e2.(*ast.KeyValueExpr); ok {
+								v := exprString(kv2.Value)
+								if s, ok := strLit(kv2.Value); ok {
+									v = s
+								}
+								defs = append(defs, fmt.Sprintf("(%s, %s)", coqStr(exprString(kv2.Key)), coqStr(v)))
+							}
+						}
+						continue
+					}
 					v := exprString(kv.Value)
 					if s, ok := strLit(kv.Value); ok {
 						v = s
